@@ -106,6 +106,12 @@ def programs(tier):
             continue
         for v in (["BUTTON(0)", "INT(B/2)"] if quick else ["BUTTON(0)", "INT(B/2)", "VAL(INKEY$)", "POINT(1,2)", "JOYSTK(0)"]):
             progs.append(("function-operand-probe", "10 " + t.replace("#", v)))
+    # ... and once with an operator expression (bare and parenthesised): its kind is numeric whatever flags the tool keeps
+    for k, t in enumerate(OPERAND_TEMPLATES):
+        if '"U#"' in t or t.startswith(("DATA", "CLEAR", "PCLEAR", "RGB")):
+            continue
+        for v in (["B+1", "(B*2)"] if quick else ["B+1", "(B*2)", "128+16*C", "(N+1)", "B-1", "B/2", "2^B"]):
+            progs.append(("expression-operand-probe", "10 " + t.replace("#", v)))
     # nested conditionals with convertible functions in the inner condition / body
     for c in ["INKEY$=\"X\"", "BUTTON(0)=1", "INT(B)=2", "JOYSTK(0)>31", "POINT(1,2)=3", "VAL(B$)=1"]:
         progs.append(("nested-if-probe", f"10 IF A=1 THEN IF {c} THEN PRINT \"Y\"\n20 END"))
